@@ -324,6 +324,8 @@ class DatasetRelabel(Contract):
 
 # ---- C14: Dataset-wide operations that are self-contained (no alignment): take_axis / sort_axis through reduce_axis ---------
 STATES["a(x),b(x,y),c(y)"] = [("a", ["x"]), ("b", ["x", "y"]), ("c", ["y"])]
+# (a variable that stores the dataset's dimensions in ANOTHER order than the dataset lists them: x first for the dataset, y first for b)
+STATES["a(x),b(y,x),c(y)"] = [("a", ["x"]), ("b", ["y", "x"]), ("c", ["y"])]
 
 
 def _var(ds, k):
@@ -1152,6 +1154,8 @@ class AlignDataset(Contract):
                     if tier == "quick" and sort:
                         continue            # (several hundred paths each: thorough tier)
                     yield {"name": "ds|%s-%s-%s" % (other, join, "sort" if sort else "nosort"), "other": other, "join": join, "sort": sort}
+        # a variable whose dimension order differs from the dataset's
+        yield {"name": "ds(b stored y,x)|dimarray-outer-nosort", "other": "dimarray", "join": "outer", "sort": False, "b_yx": True}
 
     def bounded_obligations(self, case):
         return ("raises[IndexError]",) if case["join"] == "inner" else ()     # as in Align: rests on AxisIntersection's set-level clause
@@ -1159,7 +1163,7 @@ class AlignDataset(Contract):
     bound_names = ("ds.x.n", "ds.y.n", "o.x.n")
 
     def setup(self, S, case):
-        ds, labels = make_dataset(S, "a(x),b(x,y),c(y)")
+        ds, labels = make_dataset(S, "a(x),b(y,x),c(y)" if case.get("b_yx") else "a(x),b(x,y),c(y)")
         ds.attrs["title"] = "t"
         L = S.array1d("o.x", KIND["x"])
         assume_order(S, L, "unique")
@@ -1215,17 +1219,19 @@ class AlignDataset(Contract):
         yield "dataset:y-is-the-common-axis", same_labels(Yr, CY)
         a, b, c = _var(out, "a"), _var(out, "b"), _var(out, "c")
         a0, b0, c0 = snap["data"]["a"], snap["data"]["b"], snap["data"]["c"]
-        ok = tuple(a.dims) == ("x",) and tuple(b.dims) == ("x", "y") and tuple(c.dims) == ("y",)
+        yx = bool(case.get("b_yx"))
+        ok = tuple(a.dims) == ("x",) and tuple(b.dims) == (("y", "x") if yx else ("x", "y")) and tuple(c.dims) == ("y",)
         yield "dataset:dims-of-the-variables-kept", ok
         if not ok:
             return
+        bat = (lambda arr, k, j: S.at(arr, j, k)) if yx else (lambda arr, k, j: S.at(arr, k, j))       # b's cell at (x position k, y position j)
         nx, ny, m, my = S.n(X), S.n(Y), S.n(CX), S.n(CY)
         yield "a:present-labels-keep-their-cell", S.forall(0, m, lambda k: S.forall(0, nx, lambda p: S.implies(S.at(X, p) == S.at(CX, k), lambda: S.same(S.at(a.values, k), S.at(a0, p)))))
         yield "a:missing-labels-are-nan", S.forall(0, m, lambda k: S.implies(absent(S, X, S.at(CX, k)), lambda: S.isnan(S.at(a.values, k))))
         yield "b:present-labels-keep-their-cell", S.forall_nd([m, my], lambda k, j: S.forall(0, nx, lambda p: S.forall(0, ny, lambda q: S.implies(
-            S.land(S.at(X, p) == S.at(CX, k), S.at(Y, q) == S.at(CY, j)), lambda: S.same(S.at(b.values, k, j), S.at(b0, p, q))))))
+            S.land(S.at(X, p) == S.at(CX, k), S.at(Y, q) == S.at(CY, j)), lambda: S.same(bat(b.values, k, j), bat(b0, p, q))))))
         yield "b:missing-labels-are-nan", S.forall_nd([m, my], lambda k, j: S.implies(
-            S.lor(absent(S, X, S.at(CX, k)), absent(S, Y, S.at(CY, j))), lambda: S.isnan(S.at(b.values, k, j))))
+            S.lor(absent(S, X, S.at(CX, k)), absent(S, Y, S.at(CY, j))), lambda: S.isnan(bat(b.values, k, j))))
         yield "c:present-labels-keep-their-cell", S.forall(0, my, lambda j: S.forall(0, ny, lambda q: S.implies(S.at(Y, q) == S.at(CY, j), lambda: S.same(S.at(c.values, j), S.at(c0, q)))))
         yield "dataset-metadata-carried-over", dict(out.attrs) == snap["attrs"]
         # the other operand
